@@ -10,6 +10,10 @@
   union-order       union members are stored and handed back in a sequence (not a hash container)
   provider-siblings SnapshotProvider answers from the captured data: candidates in captured order, filter =
                     (contains != inverse), sort by the captured order key, dependencies cloned
+
+Added after the second and third seeding rounds:
+  faithful-copy     every value stored in a snapshot table is built from the provider's answer without lossy / re-ordering operations
+  ids-followed      every id the capture learns from the provider is queued for capture or used as a table key
 """
 from common import *
 import q, dim
